@@ -124,11 +124,14 @@ class UMNDirHandler(DirHandler):
             fileentriesdict[entry.selector] = entry
 
         for linkentry in self.linkentries:
+            hides = linkentry.gettype() in ("X", "-")
             if not linkentry.getneedsmerge():
-                self.fileentries.append(linkentry)
+                # An entry needs a name to be listed.
+                if linkentry.getname() is not None:
+                    self.fileentries.append(linkentry)
                 continue
             if linkentry.selector in fileentriesdict:
-                if linkentry.gettype() == "X":
+                if hides:
                     # It's special code to hide something.  A second block
                     # hiding the same file finds nothing left to hide.
                     hidden = fileentriesdict[linkentry.selector]
@@ -136,9 +139,10 @@ class UMNDirHandler(DirHandler):
                         self.fileentries.remove(hidden)
                 else:
                     self.mergeentries(fileentriesdict[linkentry.selector], linkentry)
-            elif linkentry.gettype() == "X":
+            elif hides or linkentry.getname() is None:
                 # Hiding a file that is not listed (deleted, ignored): there
-                # is nothing to hide and nothing to add.
+                # is nothing to hide and nothing to add.  Neither is there
+                # for a block that names nothing.
                 continue
             else:
                 self.fileentries.append(linkentry)
